@@ -302,7 +302,7 @@ class Splice:
         self.enter = []         # at start of body
         self.before = []        # [(pattern, occurrence, [(tline,text)])]
         self.after = []
-        self.exit = []          # before the final expression? (rarely used) -- not implemented: use before
+        self.tail = []          # before the last non-blank line of the body (a one-line tail expression)
 
 
 def extract_function(src, relpath, container, name, splice, opts):
@@ -383,6 +383,13 @@ def extract_function(src, relpath, container, name, splice, opts):
         inserts_before_line.setdefault(find_line(pattern, occ), []).extend(items)
     for pattern, occ, items in splice.after:
         inserts_after_line.setdefault(find_line(pattern, occ), []).extend(items)
+    if splice.tail:
+        k = len(blines) - 2
+        while k > 0 and not blines[k].strip():
+            k -= 1
+        if k <= 0:
+            raise ExtractError('no tail line in fn `%s`' % name)
+        inserts_before_line.setdefault(k, []).extend(splice.tail)
     for i, l in enumerate(blines):
         org = ('src', relpath, body_first_line + i)
         for tl, t in inserts_before_line.get(i, []):
